@@ -45,7 +45,7 @@ def cases(draw, tier):
         except Exception:
             cands = []
     t = draw(S.thresholds(c['pts'], metric, candidates=cands or None))
-    ts = draw(st.lists(S.thresholds(c['pts'], 'smape'), min_size=1, max_size=4))
+    ts = draw(st.lists(S.thresholds(c['pts'], 'smape'), min_size=0, max_size=4))
     return {'family': c['family'], 'pts': c['pts'], 'metric': metric, 'distance': distance, 'order': order,
             't': t, 'min_points': draw(st.integers(0, n + 3)), 'ts': ts, 'default_ts': draw(st.integers(0, 2)) == 0, 'np_int': draw(st.booleans())}
 
